@@ -156,4 +156,44 @@ func init() {
 		},
 		TrustedBase: []string{stdTrusted, "OPA v0.47.0 parser/compiler as the oracle for 'the engine accepts'"},
 	})
+
+	reg(&PropertySpec{
+		ID: "C06", Level: "model_checking",
+		Rule: "one state = one feasible path of parse+generate (or BuildReport) executed twice: once with every Go map ranged in insertion order, once under one of the explored iteration-order deviations; a state is one deviation",
+		Harnesses: func(tier string) []HarnessSpec {
+			return []HarnessSpec{
+				{Pkg: "internal/validator", Fn: "VerifC06Generate", Native: "VerifC06GenerateNative", Reach: []string{"generated-twice"}, Bounds: map[string]any{"profiles": 3, "map_orders": "all maps reversed | all rotated | one iteration site arbitrarily permuted (n<=4: all n!)"}},
+				{Pkg: "internal/validator", Fn: "VerifC06Report", Reach: []string{"built-twice"}, Bounds: map[string]any{"results": "1..2 violations + 1 warning, nested sub-results and locations"}},
+			}
+		},
+		Assumptions: []string{
+			"the only sources of nondeterminism in repository code are Go map iteration order and the process-wide identifier counter (reset = fresh process); the clock is an input",
+			"map-order bound: per path either every map is reversed, every map is rotated, or exactly one iteration site deviates arbitrarily; two independently deviating sites are outside the bound",
+			"yaml.v3, encoding/json (sorted keys) and OPA evaluation are deterministic functions of their inputs (dependency contract); goroutine interleavings are the subject of C10",
+		},
+		TrustedBase: []string{stdTrusted},
+	})
+	reg(&PropertySpec{
+		ID: "C01", Level: "model_checking",
+		Rule: "one state = one formula shape (chosen by nondeterministic recursion through the real constructors) executed through the real Dispatch/GenerateAnd/GenerateOr/GenerateConditional/Negate code; z3 decides the equivalence for all truth assignments of the shape's atoms at once",
+		Harnesses: func(tier string) []HarnessSpec {
+			if tier == "thorough" {
+				return []HarnessSpec{
+					{Pkg: "internal/generator", Fn: "VerifC01Skeleton2W3", Reach: []string{"tree-built", "dispatched"}, Bounds: map[string]any{"depth": 2, "width": "2..3", "shapes": 1737}},
+					{Pkg: "internal/generator", Fn: "VerifC01SkeletonSpine4", Reach: []string{"tree-built", "dispatched"}, Bounds: map[string]any{"depth": 4, "shape": "one deep operand, others atoms"}},
+				}
+			}
+			return []HarnessSpec{
+				{Pkg: "internal/generator", Fn: "VerifC01Skeleton2", Reach: []string{"tree-built", "dispatched"}, Bounds: map[string]any{"depth": 2, "width": 2, "shapes": 331}},
+				{Pkg: "internal/generator", Fn: "VerifC01SkeletonSpine3", Reach: []string{"tree-built", "dispatched"}, Bounds: map[string]any{"depth": 3, "shape": "one deep operand, others atoms"}},
+			}
+		},
+		Assumptions: []string{
+			"propositional skeleton only: atoms are minCount 1 on distinct properties; a generated leaf whose last line starts with `not ` fails exactly when its atom is false, otherwise exactly when it is true (the reading of a count leaf)",
+			"a validation reports a node iff some generated branch has all its leaves failing (how wrapTopLevelRegoResult turns branches into rule bodies)",
+			"formula depth <= 2 exhaustively (width 2; width 3 in the thorough tier) plus spines to depth 3/4; deeper or wider formulas are outside the bound",
+			"the meaning of the other atomic constraints, nested/atLeast/atMost and the evaluation of the emitted Rego on graphs are NOT covered by this harness",
+		},
+		TrustedBase: []string{stdTrusted},
+	})
 }
